@@ -281,6 +281,15 @@ pub fn gen_value(t: &Tape, max_len: usize) -> Vec<u8> {
 }
 
 pub fn gen_name(t: &Tape) -> String {
+    let n = gen_name_raw(t);
+    // random tokens must not collide with names HTTP/2 gives a meaning to
+    match n.as_str() {
+        "te" | "connection" | "upgrade" | "host" | "trailer" | "expect" | "range" => format!("x{}", n),
+        _ => n,
+    }
+}
+
+fn gen_name_raw(t: &Tape) -> String {
     let class = t.draw(Lane::Work, 6);
     match class {
         0..=3 => t.pick(Lane::Work, NAME_POOL).to_string(),
